@@ -16,7 +16,7 @@ MANIFEST_ENTRY = {
 MANIFEST_ENTRY["text"] += " Bounded end-to-end stand-in (run-time contract, never counted as proved): contracts/grid_http.py drives the real StorageServer through seeded histories (allocate, chunked/overlapping/conflicting/overrunning writes, abort, 31-minute timeout, reads, leases, read-test-write with failing tests, truncation, deletion, wrong write enabler) and compares it after every operation with a plain byte-array model: visible shares, bytes, space reserved for uploads in progress, mutable slots."
 MANIFEST_ENTRY["technique"] = MANIFEST_ENTRY.get("technique", "contract-based deductive verification: pre/postconditions on the real functions, VCs generated from the AST, discharged by z3/cvc5") + "; plus a bounded run-time contract: the real StorageServer against a byte-array model over seeded histories (stand-in, labelled bounded)"
 EXPLANATION = "Protocol-level contract over the real StorageServer code with share objects abstracted by their contracts."
-TRUSTED = ["timing_safe_compare(a,b) <=> a == b", "os.listdir/os.path.isdir report exactly the modelled share files (plus one non-numeric junk name)"]
+TRUSTED = ["timing_safe_compare(a,b) <=> a == b is the callee contract used at call sites; it is discharged on the real body by TimingSafeCompare (contracts/tsc.py) under SHA-256 collision resistance (explicit cryptographic hypothesis, instantiated) and os.urandom(32) returning 32 bytes", "os.listdir/os.path.isdir report exactly the modelled share files (plus one non-numeric junk name)"]
 ASSUMPTIONS = ["termination not proved", "share-level writev does not raise (valid request, see C23)"]
 NOT_DECIDED = "interleaving of several requests (C12), lease renewal details (C25)."
 F = "allmydata/storage/server.py"
@@ -268,4 +268,6 @@ def extra_checks(rep, tier):
 def contracts(tier):
     # "applies none if any test fails" also depends on the share-level test-vector evaluation (C23 contracts)
     from contracts.C23 import CheckTestV, EmptyShareCheckTestV
-    return [SlotTestvReadvWritev(), CheckWriteEnabler(), CheckTestV(), EmptyShareCheckTestV()]
+    # the write-enabler and lease-secret comparisons go through hashutil.timing_safe_compare: its callee contract is discharged here
+    from contracts.tsc import TimingSafeCompare
+    return [SlotTestvReadvWritev(), CheckWriteEnabler(), CheckTestV(), EmptyShareCheckTestV(), TimingSafeCompare()]
